@@ -6,7 +6,8 @@
     1. nodes and edges; a labelled edge `from -lits-> to` becomes `from -> And -> {literal leaves, to}`
        (literal leaves are shared per literal);
     2. features in 1..total never mentioned on an edge: a new And root with one `Or(f, -f)` triangle each;
-    3. True/False elimination in DFS post-order: And drops an edge into True; Or drops an edge into
+    3. True/False elimination in DFS post-order: And drops an edge into True; an Or with a True child
+       becomes True itself; Or drops an edge into
        False; an And with a False child is deleted together with its chain of And ancestors;
     4. smoothing: for every Or (DFS post-order) each child that misses variables mentioned by its
        siblings is wrapped in a new And together with the triangles of the missing variables
@@ -55,6 +56,12 @@ def G.removeNode (g : G) (x : Nat) : G :=
   let g1 := (g.outs.getD x []).foldl (fun g b => { g with ins := g.ins.setIfInBounds b ((g.ins.getD b []).filter (· != x)) }) g
   let g2 := (g.ins.getD x []).foldl (fun g a => { g with outs := g.outs.setIfInBounds a ((g.outs.getD a []).filter (· != x)) }) g1
   { g2 with kind := g2.kind.setIfInBounds x none, outs := g2.outs.setIfInBounds x [], ins := g2.ins.setIfInBounds x [] }
+
+/-- an or-node with a True child is resolved to True: all its outgoing edges are removed and its
+weight is overwritten (repaired loader) -/
+def G.makeTrue (g : G) (x : Nat) : G :=
+  let g1 := (g.outs.getD x []).foldl (fun g b => { g with ins := g.ins.setIfInBounds b ((g.ins.getD b []).filter (· != x)) }) g
+  { g1 with kind := g1.kind.setIfInBounds x (some .tru), outs := g1.outs.setIfInBounds x [] }
 
 /-! ### petgraph's `DfsPostOrder` -/
 
@@ -172,7 +179,7 @@ def elimNode (g : G) (nx : Nat) : G :=
         | some .tru =>
             (match g.kindOf nx with
              | some .and => go cs (g.removeEdge nx c)
-             | some .or => go cs g
+             | some .or => g.makeTrue nx          -- the or-node is True itself; its walker stops
              | none => { g with err := true }
              | _ => { g with err := true })
         | some .fls =>
